@@ -26,7 +26,7 @@ def run(chk):
     if quick:
         t["design"] = {"quick": [{"n": 1, "args": "clients=1,fail=1"}, {"n": 2, "args": "clients=1,fail=1", "workers": 8}]}
         t["bfs"] = {"quick": [{"n": 1, "args": "clients=2,fail=1"}]}
-        t["random"] = {"quick": [{"n": 3, "runs": 24, "steps": 400, "policy": "biased", "args": "clients=2,fail=1"},
+        t["random"] = {"quick": [{"n": 3, "runs": 72, "steps": 300, "policy": "biased", "args": "clients=2,fail=1"},
                                  {"n": 2, "runs": 12, "steps": 300, "policy": "biased", "args": "clients=3,fail=1"}]}
         guided = [(3, "clients=2,fail=1", 8, 100)]
     else:
@@ -119,7 +119,8 @@ def run(chk):
     chk.assumptions += ["TLC/SANY/Json", "spec-state env resources (harness/internal/sysdefs/pbkvs.go) implement the mapping macros of pbkvs.tla as written (PerfectFD, ReliableFIFOLink, NetworkToggle, LeaderElection, FileSystem, NetworkBufferLength, Channel); every state they produce is validated against pbkvs.tla by C02",
                         "logical stamps = positions in the global commit order of the gated execution; operations pending at the end may take effect or not",
                         "the store's initial value \"\" is read as not-found"]
-    chk.gaps += ["the client workload is the spec's clientInput (two Puts and a Get on one key, shared by all clients)",
+    chk.gaps += ["fail-over sequences that need a crash between two sends of one replication round followed by a take-over and a read (seed C14-B) did not occur in 72 seeded executions with crash choices; such a defect is decided by C02's step conformance",
+                 "the client workload is the spec's clientInput (two Puts and a Get on one key, shared by all clients)",
                  "real bootstrap (TCP mailboxes, real failure detector, files on disk) is not driven by this check; those resources are C06/C19/C01"]
     return chk.finish(rule="ConsistencyOK evaluated by TLC in every state of (a) the shipped spec (exhaustive / simulation), (b) the complete state graph of the generated code on small instances, (c) seeded executions of the generated archetypes under Run with crash choices; "
                            "client histories of (c) and of TLC behaviours replayed through the generated code judged by TLC on KVLin.tla")
